@@ -205,7 +205,7 @@ def run_case(tid, sampler, nsamples, nburn, placement, seed, tuple_out=False):
             ok1p = all(torch.allclose(x if x is not None else torch.zeros_like(y), y, atol=1e-10, rtol=1e-8) for x, y in zip(g1[2:4], r1[2:4]))
             verd.append(["grad_f_is_mean_df", bool(ok1f)])
             verd.append(["grad_p_is_score_estimator", bool(ok1p)])
-            verd.append(["unused_tensor_zero_grad", g1[4] is None or float(g1[4].abs().max()) == 0.0])
+            verd.append(["unused_tensor_zero_grad", g1[4] is None or float(g1[4].detach().abs().max()) == 0.0])
             verd.append(["backward_on_same_points", bool(ev[-1]["same_points"])])
             try:
                 c2 = [torch.cos(torch.arange(x.numel(), dtype=DT) + 1.0).reshape(x.shape) for x in r1]
